@@ -550,7 +550,6 @@ func sendRound(r *rng.R, k int, res *result) {
 					}
 					mu.Unlock()
 				}
-				res.Hist["Send"]++
 			}
 		}(i)
 	}
@@ -569,6 +568,7 @@ func sendRound(r *rng.R, k int, res *result) {
 	case <-time.After(5 * time.Second):
 	}
 	res.Sends += 3 * k
+	res.Hist["Send"] += 3 * k
 	// the bytes that went to the server must parse (by the model) into exactly the requests
 	// the server handled, in that order: frames intact, not interleaved
 	rec.mu.Lock()
@@ -683,7 +683,7 @@ func main() {
 	r.U64()
 	res := &result{Hist: map[string]int{}}
 	ks := []int{2, 3, 8, 17, 64}
-	reps := 12
+	reps := 30
 	if *tier == "thorough" {
 		ks = []int{2, 3, 4, 5, 8, 13, 17, 32, 48, 64}
 		reps = 60
@@ -714,7 +714,7 @@ func main() {
 						return
 					default:
 						runtime.GC()
-						time.Sleep(time.Duration(200+r.Intn(1)) * time.Microsecond)
+						time.Sleep(200 * time.Microsecond)
 					}
 				}
 			}()
